@@ -164,7 +164,8 @@ class YamlDocument(HierDictDocument):
 
             ctx.in_document = yaml.load(s, **self.in_kwargs)
 
-        except yaml.YAMLError as e:
+        except (yaml.YAMLError, UnicodeError, LookupError) as e:
+            # the latter two: wrong or unknown charset
             raise Fault('Client.YamlDecodeError', repr(e))
 
     def create_out_string(self, ctx, out_string_encoding='utf8'):
